@@ -23,6 +23,13 @@ def run(ctx, out):
         "each sample is identified by the wire request that produced it (id carried in the request meta data by the harness runner)",
     ]
     rc.model_check(out, ["RaceDriver.c07.quick.cfg", "RaceDriver.c07.q1.cfg"] if ctx.quick else ["RaceDriver.c07.quick.cfg", "RaceDriver.c07.q1.thorough.cfg", "RaceDriver.c07.thorough.cfg"], timeout=3000)
+    from .. import tlc
+
+    wd = tlc.prepare_workdir("RaceDriver", "c07pinned")
+    res = tlc.run_tlc(wd, "MC_RaceDriver", "RaceDriver.c07.pinned.cfg", timeout=900, allow_violation=True, workers=8)
+    if res.invariant_violated != "SampleConservation":
+        raise tlc.MachineryError("self-test failed: pinned variant (FlushFix=FALSE) does not violate SampleConservation in the model")
+    out.extra["model_selftest"] = "pinned variant (FlushFix=FALSE: sampler replaced without shipping) violates SampleConservation in the model, as expected"
     jobs = []
     beh = rc.behaviours(ctx, out, 60 if ctx.quick else 600, 100, cfg="RaceDriver.sim.cfg", seed_off=7)
     for i, (scn, script) in enumerate(beh):
